@@ -247,6 +247,20 @@ def split_atoms(test: ast.AST, polarity: bool) -> List[Tuple[ast.AST, bool]]:
                 out.extend(split_atoms(v, False))
             return out
         return [(test, polarity)]
+    if isinstance(test, ast.IfExp):
+        # a predicate written with early returns and inlined as an expression:  (False if a else b)  is  not a and b ;
+        # (True if a else b)  is  a or b
+        for branch, other, when in ((test.body, test.orelse, True), (test.orelse, test.body, False)):
+            if isinstance(branch, ast.Constant) and isinstance(branch.value, bool):
+                cond = test.test if when else ast.UnaryOp(op=ast.Not(), operand=test.test)
+                if branch.value is False:
+                    # the expression is true  <=>  not cond and other
+                    eq = ast.BoolOp(op=ast.And(), values=[ast.UnaryOp(op=ast.Not(), operand=cond), other])
+                else:
+                    eq = ast.BoolOp(op=ast.Or(), values=[cond, other])
+                ast.copy_location(eq, test)
+                ast.fix_missing_locations(eq)
+                return split_atoms(eq, polarity)
     return [(test, polarity)]
 
 
